@@ -55,6 +55,12 @@ def _solve_one(ob, budget):
         _local_cache[key] = res
         return res, text
     total = dt
+    if budget.get("finite", 0) > 0:
+        t1 = time.time()
+        fr, k, fout = solve.run_finite(text, kmax=budget.get("kmax", 4))
+        total += time.time() - t1
+        if fr == "sat":
+            return {"verdict": "refuted", "backend": f"z3-finite-scope(k={k})", "seconds": round(total, 3), "model": fout[:12000], "scope": k}, text
     if r == z3.unknown and budget.get("cvc5", 0) > 0:
         r2, out2, dt2 = solve.run_cvc5(text, budget["cvc5"])
         total += dt2
@@ -62,10 +68,6 @@ def _solve_one(ob, budget):
             res = {"verdict": "discharged", "backend": "cvc5", "seconds": round(total, 3)}
             _local_cache[key] = res
             return res, text
-    if budget.get("finite", 0) > 0:
-        fr, k, fout = solve.run_finite(text, kmax=budget.get("kmax", 4))
-        if fr == "sat":
-            return {"verdict": "refuted", "backend": f"z3-finite-scope(k={k})", "seconds": round(total, 3), "model": fout[:8000], "scope": k}, text
     if r == z3.sat:
         return {"verdict": "refuted", "backend": "z3", "seconds": round(total, 3), "model": str(s.model())[:8000], "scope": None}, text
     return {"verdict": "undecided", "backend": "z3,cvc5,finite-scope", "seconds": round(total, 3)}, text
@@ -95,6 +97,8 @@ def run_path(task):
             outcome = f"cut:{e}"
         except Infeasible:
             outcome = "infeasible"
+        if outcome != "infeasible" and any(o.kind != "cover" for o in C.obl):
+            C.cover(f"{fu.name}.cover.path_end[{outcome}]")
         out["outcome"] = outcome
         out["path"] = C.path_label()
         out["pending"] = list(C.pending)
@@ -131,6 +135,7 @@ def _cover(ob, budget):
     return {"verdict": "undecided", "backend": "cover-not-found", "seconds": round(dt, 3)}, text
 
 
+MAX_PATHS = int(os.environ.get("VERIF_MAX_PATHS", "1500"))
 DEFAULT_BUDGETS = {"default": {"z3": 10, "cvc5": 20, "finite": 1, "kmax": 4}, "special": []}
 
 
@@ -169,11 +174,16 @@ def verify_units(units, budgets=None, workers=None, verbose=False):
                     out = ar.get()
                     rep = report[out["unit"]]
                     if out["error"]:
-                        rep["error"] = out["error"]
+                        rep["error"] = rep["error"] or out["error"]
+                        continue
+                    if rep["error"]:
                         continue
                     rep["src_hash"] = out.get("src_hash")
                     rep["paths"].append((out["outcome"], out["path"], len(out["results"])))
                     rep["results"].extend(out["results"])
+                    if len(rep["paths"]) > MAX_PATHS:
+                        rep["error"] = f"Unsupported: path explosion (> {MAX_PATHS} paths)"
+                        continue
                     for pf in out["pending"]:
                         still.append(pool.apply_async(run_path, ((out["unit"], out["case"], pf, budgets),)))
                 else:
